@@ -1,8 +1,10 @@
 #!/bin/sh
-# usage: run_all.sh quick|thorough   - runs every claimed check in turn, prints exit code and wall time
+# usage: run_all.sh quick|thorough [IDs...]   - runs every claimed check in turn, prints exit code and wall time
 T="${1:-quick}"
+shift 2>/dev/null
+LIST="${*:-C05 C11 C01 C04 C06 C07 C08 C09 C14 C15 C16 C18 C17 C10 C12 C02 C03}"
 cd "$(dirname "$0")"
-for c in C05 C11 C01 C04 C06 C07 C08 C09 C14 C15 C16 C18 C17 C10 C12 C02 C03; do
+for c in $LIST; do
   s=$(date +%s); ./vcheck $c --tier "$T" > "/tmp/all_${T}_$c.out" 2>&1; rc=$?; e=$(date +%s)
   echo "$c tier=$T exit=$rc wall=$((e-s))s known=$(grep -c KNOWN-FINDING /tmp/all_${T}_$c.out) viol=$(grep -c VIOLATION /tmp/all_${T}_$c.out) harness=$(grep -c HARNESS /tmp/all_${T}_$c.out)"
   grep -h "VIOLATION\|HARNESS" "/tmp/all_${T}_$c.out" | cut -c1-400 | head -8
